@@ -2,6 +2,7 @@ package rules
 
 import (
 	"fmt"
+	"go/constant"
 	"go/token"
 	"go/types"
 	"strings"
@@ -282,5 +283,164 @@ func checkSignedIndexLowerBound(c *Ctx, res *report.Result, rule string, minSite
 	}
 	if n < minSites {
 		res.Undec(rule, "index expressions on signed ids in package proxy", "", fmt.Sprintf("%d found, at least %d confirmed by hand", n, minSites))
+	}
+}
+
+// checkIntraProxyMarkerExact (O12.15 / O13.16): a stream counts as intra-proxy only when it carries the very marker
+// that WithIntraProxyHeaders writes. In common.IsIntraProxy every return that is not the constant false is guarded,
+// on its true side, by an equality test of the header value with IntraProxyHeaderValue: the translation interceptor
+// hands intra-proxy streams to their handler untranslated, so a looser test ("any non-empty value") lets a peer
+// switch translation off for its replication stream with a header like `x-s2s-intra-proxy: 0`.
+func checkIntraProxyMarkerExact(c *Ctx, res *report.Result, rule string) {
+	f := resolve(c, res, rule, anchor{"common", "", "IsIntraProxy"})
+	if f == nil {
+		return
+	}
+	want, okW := "", false
+	if pk, err := c.Prog.Pkg("common"); err == nil {
+		if cst, ok := pk.Types.Scope().Lookup("IntraProxyHeaderValue").(*types.Const); ok && cst.Val().Kind() == constant.String {
+			want, okW = constant.StringVal(cst.Val()), true
+		}
+	}
+	if !okW {
+		res.Undec(rule, "common.IntraProxyHeaderValue", "", "the marker constant was not found")
+		return
+	}
+	n := 0
+	for _, b := range f.Blocks {
+		ret, ok := b.Instrs[len(b.Instrs)-1].(*ssa.Return)
+		if !ok || len(ret.Results) != 1 {
+			continue
+		}
+		rv := flow.Ret(ret)[0]
+		if v, isC := flow.ConstBool(rv); isC && !v {
+			continue
+		}
+		n++
+		exact := false
+		isEq := func(v ssa.Value, side bool) bool {
+			bo, ok := v.(*ssa.BinOp)
+			if !ok || !(bo.Op == token.EQL && side || bo.Op == token.NEQ && !side) {
+				return false
+			}
+			sx, okx := flow.ConstString(bo.X)
+			sy, oky := flow.ConstString(bo.Y)
+			return okx && sx == want || oky && sy == want
+		}
+		for _, g := range flow.NormGuards(flow.Guards(b)) {
+			if isEq(g.Cond, g.Side) {
+				exact = true
+			}
+		}
+		// `return len(vals) > 0 && vals[0] == "1"`: the returned value itself is the comparison (through the && phi)
+		if phi, isP := rv.(*ssa.Phi); isP && !exact {
+			for _, e := range phi.Edges {
+				if isEq(e, true) {
+					exact = true
+				}
+			}
+		}
+		if isEq(rv, true) {
+			exact = true
+		}
+		res.Check(exact, rule, fmt.Sprintf("common.IsIntraProxy: the positive answer in block %d requires the header to equal the marker %q", b.Index, want), instrPos(c.Prog, ret), "vals[0] == IntraProxyHeaderValue",
+			"IsIntraProxy can answer true without the header being exactly the marker that WithIntraProxyHeaders writes: the translation interceptor hands such a stream to its handler untranslated, so any peer can switch namespace (and search-attribute) translation off for its replication stream by sending the header with another value")
+	}
+	if n < 1 {
+		res.Undec(rule, "common.IsIntraProxy: positive return", fnPos(c.Prog, f), "no return other than the constant false")
+	}
+}
+
+// checkTrackerEntriesTested (O8.20): an entry of the stream tracker is used only after it was found. Successive
+// incarnations of a stream share a tracker id and UnregisterStream is unconditional, so an update can find no entry
+// while its stream is alive (the predecessor's deferred cleanup removed it). In stream_tracker.go every field access
+// through a *StreamInfo that comes from a lookup in `streams` - directly or through a helper of the file that returns
+// one - is dominated by the comma-ok flag of that lookup or by a test of that pointer against nil. The updates run on
+// the senders' and receivers' worker goroutines, where a nil dereference ends the process.
+func checkTrackerEntriesTested(c *Ctx, res *report.Result, rule string, minSites int) {
+	var fns []*ssa.Function
+	for _, f := range c.Prog.RepoFuncs() {
+		if isShippedFunc(f) && len(f.Blocks) > 0 && strings.HasPrefix(c.Prog.Pos(f.Pos()), "proxy/stream_tracker.go") {
+			fns = append(fns, f)
+		}
+	}
+	isStreamsLookup := func(v ssa.Value) *ssa.Lookup {
+		lk, ok := v.(*ssa.Lookup)
+		if !ok {
+			return nil
+		}
+		if _, fld, isF := flow.FieldLoadOf(lk.X); isF && fld == "streams" {
+			return lk
+		}
+		return nil
+	}
+	// helpers of the file whose result is such an entry (possibly nil)
+	returnsEntry := map[*ssa.Function]bool{}
+	for _, f := range fns {
+		if f.Signature.Results().Len() != 1 {
+			continue
+		}
+		for _, b := range f.Blocks {
+			if ret, ok := b.Instrs[len(b.Instrs)-1].(*ssa.Return); ok {
+				v := flow.ResolveLoad(flow.Ret(ret)[0])
+				if ex, isE := v.(*ssa.Extract); isE {
+					v = ex.Tuple
+				}
+				if isStreamsLookup(v) != nil {
+					returnsEntry[f] = true
+				}
+			}
+		}
+	}
+	n := 0
+	for _, f := range fns {
+		k := 0
+		for _, b := range f.Blocks {
+			for _, ins := range b.Instrs {
+				fa, ok := ins.(*ssa.FieldAddr)
+				if !ok || !isNamedPtr(fa.X.Type(), "StreamInfo") {
+					continue
+				}
+				p := flow.ResolveLoad(fa.X)
+				var okFlag ssa.Value
+				fromLookup := false
+				switch x := p.(type) {
+				case *ssa.Extract:
+					if lk := isStreamsLookup(x.Tuple); lk != nil && x.Index == 0 {
+						fromLookup = true
+						for _, r := range *lk.Referrers() {
+							if e2, isE := r.(*ssa.Extract); isE && e2.Index == 1 {
+								okFlag = e2
+							}
+						}
+					}
+				case *ssa.Lookup:
+					fromLookup = isStreamsLookup(x) != nil
+				case *ssa.Call:
+					if sc := flow.StaticCallee(&x.Call); sc != nil && returnsEntry[sc] {
+						fromLookup = true
+					}
+				}
+				if !fromLookup {
+					continue
+				}
+				n++
+				k++
+				tested := false
+				for _, g := range flow.NormGuards(flow.Guards(b)) {
+					if okFlag != nil && g.Side && (g.Cond == okFlag || flow.ResolveLoad(g.Cond) == okFlag) {
+						tested = true
+					}
+					if bo, isB := g.Cond.(*ssa.BinOp); isB && flow.IsNilConst(bo.Y) && (flow.ResolveLoad(bo.X) == p || bo.X == p) && (bo.Op == token.NEQ && g.Side || bo.Op == token.EQL && !g.Side) {
+						tested = true
+					}
+				}
+				res.Check(tested, rule, fmt.Sprintf("%s: tracker entry access #%d follows a test that the entry exists", shortFn(f), k), instrPos(c.Prog, fa), "exists / != nil on this path",
+					"a field of a *StreamInfo taken from the tracker's table is accessed without a test that the lookup found an entry: successive incarnations of a stream share a tracker id and the predecessor's cleanup removes the entry unconditionally, so the update of a live stream can find nothing - a nil dereference on a worker goroutine, which ends the process")
+			}
+		}
+	}
+	if n < minSites {
+		res.Undec(rule, "accesses of tracker entries in stream_tracker.go", "", fmt.Sprintf("%d found, at least %d confirmed by hand", n, minSites))
 	}
 }
